@@ -26,6 +26,16 @@ CLAIMS = {
         "note": "Trusts CrossHair/z3, the log oracle in harness/c03.py, the stubs. Timer/service effects observed at the engine's own entry points (states declare none). Outside: multi-transition macrosteps (C02/C10), machines beyond the skeleton family.",
         "design": "DESIGN.md section 4 C03",
     },
+    "C05": {
+        "text": "Bounded symbolic check: a feature machine (hierarchy, parallel, history incl. history targets from inside the parent, guards, assign/raise/choose/pure/enqueueActions, always, onDone, sync service, final output) is run on SyncInterpreter, on Interpreter (virtual-time loop, observed at quiescence) and through initial_transition/transition with the same symbolic events and guard outcomes; after every event configuration, context, status, output and the ordered action/marker traces with their triggering events are equal; one-step variant from every non-final configuration x recorded history; the pure functions run no user code and leave machine and snapshot unchanged.",
+        "note": "Trusts CrossHair/z3 and the virtual-time loop. One machine (FM, and FM without service for the pure API: the pure probe suppresses services by design); sequences of 2 (quick) / 3 events + the one-step variant. The synthetic init event handed to entry actions during start() is not compared (there is no triggering event).",
+        "design": "DESIGN.md section 4 C05",
+    },
+    "C12": {
+        "text": "Bounded symbolic check (bisimulation step): from every constructed quiescent state of the feature machine (configuration x history x context) and from public runs cut after every event, snapshot -> from_snapshot (1-2 cycles; async start() resume) yields an interpreter equal in configuration, context, history, status, output, error, actors and systemIds, whose re-snapshot reproduces the snapshot, which is valid JSON and is not altered by later execution, and which agrees with the original on one more symbolic event; parent/child hierarchies with systemId (also after the parent completed); history skeletons; structurally corrupted snapshots (key x replacement symbolic) are rejected with a library error, unknown state ids with StateNotFoundError, non-JSON text with InvalidConfigError.",
+        "note": "Trusts CrossHair/z3; json encode/decode of concrete snapshots runs natively (common.native) because CrossHair's pure-Python json is pathologically slow - no symbolic value enters it. Corruption space = 9 keys x 13 replacements x 4 strings. Pending timers/in-flight services excepted as documented.",
+        "design": "DESIGN.md section 4 C12",
+    },
     "C06": {
         "text": "Bounded symbolic check: GuardDefinition + _is_guard_satisfied on 7 expression templates (depth<=3) with symbolic operators, operand spellings and atom outcomes (true/false/raise/missing) against a three-valued short-circuit reference; every atom form incl. literal/computed params and user-defined stateIn; _is_state_in with a free symbolic state name against concrete configurations; cond==guard at transition and choose level; raising/missing guards inside selection on both engines; same-named guards with different params in one selection pass.",
         "note": "Trusts CrossHair/z3 and the references in harness/c06.py. Expression space = the templates, not all formulas; state names <= 4 (quick) / 6 chars; string-form stateIn params only with concrete names (a symbolic str there makes CrossHair's tree explode).",
